@@ -303,7 +303,14 @@ pub fn free_tx(rng: &mut Rng, kind: usize, o: &FreeOpts) -> Transaction {
         .collect();
     let witnesses: Vec<Witness> = (0..nw).map(|_| witness(rng, o.cap)).collect();
     match kind % TX_KINDS {
-        0 => Transaction::script(rng.word(), rng.bytes_len_class(o.cap), rng.bytes_len_class(o.cap), pol, inputs, outputs, witnesses).into(),
+        0 => {
+            let mut s = Transaction::script(rng.word(), rng.bytes_len_class(o.cap), rng.bytes_len_class(o.cap), pol, inputs, outputs, witnesses);
+            // the constructor leaves the receipts root zero; free-form values carry any root
+            if rng.below(4) != 0 {
+                *fuel_tx::field::ReceiptsRoot::receipts_root_mut(&mut s) = bytes32(rng);
+            }
+            s.into()
+        }
         1 => {
             let ns = rng.small(4) as usize;
             let slots = (0..ns).map(|_| storage_slot(rng)).collect();
